@@ -200,6 +200,9 @@ class HTTP(BaseComponent):
     def _on_disconnect(self, sock):
         if sock in self._clients:
             del self._clients[sock]
+        if sock in self._buffers:
+            # drop the parser of a request that was never completed
+            del self._buffers[sock]
 
     @handler('read')  # noqa
     def _on_read(self, sock, data):
